@@ -384,6 +384,10 @@ class EquationSolver(object):
                 else:
                     # Scale by variable size if large
                     relative_error += difference / (max(abs(new_value[var]), abs(initial[var])))
+            if not isfinite(relative_error):
+                # A NaN error would silently end the loop, and the diverged values would be
+                # reported as the solution.
+                raise ConvergenceError('Equations diverged (non-finite values) - step {0}'.format(step))
             if num_tries > 10:
                 # Allow initial iterations to swing a lot, but we clamp down the
                 # movement later. (We want constants to immediately move to the correct value,
